@@ -320,6 +320,85 @@ def _packed_in_layout_order(prog: Program, col: Collector, refs: Refs):
         col.unresolved(f"{f.fq}::packing loop", "no loop that fills the inputs of the returned Tensor found", f.loc())
 
 
+def _event_dims_stay(prog: Program, col: Collector, refs: Refs):
+    """A permutation applied to a tensor's array moves the BATCH dims only; it is completed by the identity on the event dims, which
+    sit behind them: `perm + range(n_batch, n_batch + n_event)` (or `range(n_batch, len(data.shape))`).  The tail is evaluated
+    for 0..3 batch dims and 0..2 event dims."""
+    from .kernels import _eval_int
+    from .c04 import _NoEval
+    n = 0
+    for fq in ("funsor.tensor::Tensor.align", "funsor.tensor::align_tensor", "funsor.tensor::tensor_to_data"):
+        f = prog.funcs.get(fq)
+        if f is None:
+            raise AnalysisError(f"anchor {fq} not found")
+        defs = _defs(f)
+        perms = [c for c in walk_no_nested(f.node) if isinstance(c, ast.Call) and (refs.resolve(c.func) or norm(c.func)).rsplit(".", 1)[-1] == "permute" and len(c.args) >= 2]
+        for c in perms:
+            # find `A + <wrapper>(range(lo, hi))` in the definition of the permutation
+            cands, seen, tail = [c.args[1]], set(), None
+            head = None
+            while cands:
+                e = cands.pop()
+                for x in ast.walk(e):
+                    if isinstance(x, ast.BinOp) and isinstance(x.op, ast.Add):
+                        r_ = x.right
+                        while isinstance(r_, ast.Call) and isinstance(r_.func, ast.Name) and r_.func.id in ("tuple", "list") and r_.args:
+                            r_ = r_.args[0]
+                        if isinstance(r_, ast.Call) and isinstance(r_.func, ast.Name) and r_.func.id == "range" and len(r_.args) == 2:
+                            tail, head = r_, x.left
+                    if isinstance(x, ast.Name) and x.id in defs and x.id not in seen:
+                        seen.add(x.id)
+                        cands.extend(defs[x.id])
+            construct = f"{f.fq}::{norm(c)[:50]}::event dims"
+            if tail is None:
+                col.unresolved(construct, "the part of the permutation that covers the event dims was not found", f.loc(c))
+                continue
+            n += 1
+            bad = None
+            try:
+                for nb in range(0, 4):
+                    for ne in range(0, 3):
+                        env = {}
+                        # lengths of anything batch-like are nb; of output shapes ne; of the whole array nb + ne
+                        for y in ast.walk(tail):
+                            if isinstance(y, ast.Call) and isinstance(y.func, ast.Name) and y.func.id == "len" and y.args:
+                                t_ = norm(y.args[0])
+                                env[norm(y)] = ne if t_.endswith("output.shape") else nb + ne if t_.endswith("data.shape") or t_ == "data.shape" else nb
+                        lo, hi = _eval_int(tail.args[0], env), _eval_int(tail.args[1], env)
+                        if list(range(lo, hi)) != list(range(nb, nb + ne)) and bad is None:
+                            bad = (nb, ne, list(range(lo, hi)))
+            except _NoEval as ex:
+                col.unresolved(construct, f"not evaluated ({ex})", f.loc(c))
+                continue
+            col.check(bad is None, construct, "the permutation ends with the identity on the event dims (range(n_batch, n_batch + n_event))",
+                      f"with {bad[0]} batch and {bad[1]} event dims the permutation is completed by {bad[2]} instead of {list(range(bad[0], bad[0] + bad[1]))}: event dims are moved or "
+                      "dropped, so the output shape holds data of another dim" if bad else "", f.loc(c))
+    col.cur.analysed["event_tails"] = n
+
+
+def _unpack_sizes(prog: Program, col: Collector, refs: Refs):
+    """tensor_to_data: after the array has been permuted into the order of the sorted target dims, batch_shape[dim] = size pairs the
+    sorted dims with the sizes of the PERMUTED array (not of x.data, whose dims are still in input order)."""
+    f = require_func(prog, "funsor.tensor::tensor_to_data")
+    loops = [lp for lp in walk_no_nested(f.node) if isinstance(lp, ast.For) and isinstance(lp.iter, ast.Call) and norm(lp.iter.func) == "zip" and len(lp.iter.args) == 2
+             and any(isinstance(st, ast.Assign) and isinstance(st.targets[0], ast.Subscript) for st in lp.body)]
+    construct = f"{f.fq}::sizes of the unpacked dims"
+    if len(loops) != 1:
+        col.unresolved(construct, "the loop that writes the batch shape not found", f.loc())
+        return
+    lp = loops[0]
+    a0, a1 = lp.iter.args
+    defs = _defs(f)
+    sorted_dims = isinstance(a0, ast.Name) and any(isinstance(d, ast.Call) and isinstance(d.func, ast.Name) and d.func.id == "sorted" for d in defs.get(a0.id, []))
+    # a1 is <arr>.shape where <arr> was (re)assigned from a permute call before the loop
+    arr = a1.value.id if isinstance(a1, ast.Attribute) and a1.attr == "shape" and isinstance(a1.value, ast.Name) else None
+    permuted = arr is not None and any(isinstance(st, ast.Assign) and len(st.targets) == 1 and norm(st.targets[0]) == arr and isinstance(st.value, ast.Call)
+                                       and norm(st.value.func).rsplit(".", 1)[-1] == "permute" and st.lineno < lp.lineno for st in walk_no_nested(f.node))
+    col.check(sorted_dims and permuted, construct, f"zip(<sorted dims>, <permuted array>.shape)",
+              f"the sizes written into the batch shape are taken from `{norm(a1)}` paired with `{norm(a0)}`: the dims must be the SORTED target dims and the sizes those of the array "
+              "after it was permuted into that order, otherwise every dim gets the size of another one", f.loc(lp))
+
+
 def run(prog: Program, col: Collector, tier: str, refs: Optional[Refs] = None, cat: Optional[Catalogue] = None):
     refs = refs or Refs(prog)
     col.rule("R19.1", "a permutation [S.index(e) for e in T] is built with S = the current layout of the permuted array", floor=3)
@@ -330,6 +409,10 @@ def run(prog: Program, col: Collector, tier: str, refs: Optional[Refs] = None, c
     _integer_clauses(prog, col, refs)
     col.rule("R19.4", "materialize substitutes an arange for every integer-typed input", floor=1)
     _materialize(prog, col, refs)
+    col.rule("R19.8", "a permutation of a tensor's array is completed by the identity on the event dims", floor=3)
+    _event_dims_stay(prog, col, refs)
+    col.rule("R19.9", "to_data pairs the sorted target dims with the sizes of the permuted array", floor=1)
+    _unpack_sizes(prog, col, refs)
     col.rule("R19.5", "to_funsor declares the inputs in the order of the array's dims", floor=1)
     _packed_in_layout_order(prog, col, refs)
     # renaming of the inputs of an evaluated tensor (what `x(i='j', j='k')` / align-by-substitution relies on): shared with C04
